@@ -16,7 +16,9 @@ from vlib.core import sh2
 
 
 def fib_like(rng, nsym, scale):
-    a, b, out = 1, 1, []
+    # 1,2,3,5,8,...: with the pseudo-symbol (count 1) every Huffman merge joins the running
+    # subtree with the next symbol, so the untruncated depth equals the number of symbols
+    a, b, out = 1, 2, []
     for _ in range(nsym):
         out.append(a * scale)
         a, b = b, a + b
@@ -42,7 +44,7 @@ def gen_hist(rng, kind):
     elif kind == "single":
         f[rng.below(256)] = rng.range(1, 10 ** 8)
     elif kind == "fib":
-        n = rng.range(2, 30)   # untruncated depth up to ~30
+        n = rng.range(2, 32)   # untruncated depth up to 32 (= MAX_CLEN): the K.2 limiting loop does real work
         vals = fib_like(rng, n, 1)
         for s, v in zip(rng.shuffle(range(256))[:n], vals):
             f[s] = v
@@ -83,7 +85,7 @@ def gen_hist(rng, kind):
         if rng.chance(1, 2):
             f[syms[0]] = 1 << 20
     elif kind == "deep":    # depth > 32 : JERR_HUFF_CLEN_OVERFLOW boundary (model-vs-code only)
-        n = rng.range(34, 40)
+        n = rng.range(33, 40)
         vals = fib_like(rng, n, 1)
         for s, v in zip(rng.shuffle(range(256))[:n], vals):
             f[s] = v
@@ -256,6 +258,11 @@ def run_cases(ctx, cases, exes, drv, flavours):
         # ---- property-level oracle on the implementation ----
         if kind.startswith("gen-") or kind == "corpus-gen":
             nzc = sum(1 for x in meta if x)
+            if kind == "gen-deep" and impl.startswith("err ClenOverflow") and sum(meta) < 10 ** 9:
+                # F15: a histogram an image CAN produce (<= 40 distinct symbols, total < 10^9) for which the
+                # generator raises JERR_HUFF_CLEN_OVERFLOW instead of returning a table
+                ctx.violation("generator returns JERR_HUFF_CLEN_OVERFLOW (untruncated depth > 32) for a Fibonacci-like histogram with total %d < 10^9" % sum(meta),
+                              {"case": line, "impl": impl}, signature="clen-overflow-fibonacci-depth>32")
             if kind != "gen-deep" and nzc <= 254:
                 bad = table_valid_for(meta, impl)
                 if bad:
